@@ -186,16 +186,20 @@ class StructIndex:
 
     def _load(self):
         import os
-        self.cache = {}
+        self.cache = {}   # struct name -> list of (module path parts, [field names])
         pat = re.compile(r"\bstruct\s+(\w+)\s*(?:<[^>{]*>)?\s*\{(.*?)\n\}", re.S)
         for root, _, files in os.walk(self.repo_src):
             for f in files:
                 if not f.endswith(".rs"):
                     continue
+                full = os.path.join(root, f)
                 try:
-                    txt = open(os.path.join(root, f), errors="replace").read()
+                    txt = open(full, errors="replace").read()
                 except OSError:
                     continue
+                rel = os.path.relpath(full, self.repo_src)[:-3].split(os.sep)
+                if rel[-1] == "mod":
+                    rel = rel[:-1]
                 for m in pat.finditer(txt):
                     fields = []
                     for line in m.group(2).splitlines():
@@ -203,7 +207,28 @@ class StructIndex:
                         mm = re.match(r"^(?:pub(?:\([^)]*\))?\s+)?(\w+)\s*:", line)
                         if mm and not line.startswith("#"):
                             fields.append(mm.group(1))
-                    self.cache.setdefault(m.group(1), fields)
+                    self.cache.setdefault(m.group(1), []).append((rel, fields))
+
+    def _fields(self, type_str):
+        if self.cache is None:
+            self._load()
+        t = re.sub(r"<.*$", "", strip_ref(type_str or "")).strip()
+        parts = [p for p in t.split("::") if p]
+        if not parts:
+            return None
+        cands = self.cache.get(parts[-1])
+        if not cands:
+            return None
+        if len(cands) == 1:
+            return cands[0][1]
+        # several structs share the name: the one whose file path matches the type's module path
+        best, score = None, -1
+        for rel, fields in cands:
+            sc = len(set(rel) & set(parts[:-1]))
+            if sc > score:
+                best, score = fields, sc
+        ties = [1 for rel, fields in cands if len(set(rel) & set(parts[:-1])) == score]
+        return best if len(ties) == 1 else None
 
     def variant_count(self, type_str):
         t = re.sub(r"^std::(option|result|task|task::poll|ops|ops::control_flow|cmp)::", "", strip_ref(type_str or "").strip())
@@ -247,10 +272,7 @@ class StructIndex:
         return self.enums.get(base, 0)
 
     def name(self, type_str, idx):
-        if self.cache is None:
-            self._load()
-        base = re.sub(r"<.*$", "", strip_ref(type_str or "")).split("::")[-1].strip()
-        fields = self.cache.get(base)
+        fields = self._fields(type_str)
         if fields and idx < len(fields):
             return fields[idx]
         return str(idx)
@@ -970,7 +992,7 @@ class Evaluation:
                 continue
             if isinstance(v, Ref):
                 out.update("var:" + n for n in self.local_names(v.place.local))
-                key = ("ref", repr(v.place))
+                key = ("ref", repr(v.place), id(en))
                 if key in seen:
                     continue
                 seen.add(key)
